@@ -187,7 +187,7 @@ Lemma select_block_no_error c bs imp L : f35 c = true -> exists r, select_block 
 Proof.
   intros Hc. unfold select_block. rewrite Hc. cbn [negb andb].
   destruct (best_of imp _ None) as [b|]; [|eauto].
-  destruct (is_future imp && negb (0 <? fst (key_of imp b))); eauto.
+  destruct (is_future imp && negb (if f46 c then existsb is_future (ib_imps b) else 0 <? fst (key_of imp b))); eauto.
 Qed.
 
 Lemma insert_new_no_error c bs : bs <> [] -> exists r, insert_new c bs = Ok r.
@@ -452,13 +452,30 @@ Proof.
   intros Hf. unfold select_block.
   destruct (negb (f35 c) && has_tie imp (filter (cand_ok c L) (iblocks bs))); [discriminate|].
   destruct (best_of imp (filter (cand_ok c L) (iblocks bs)) None) as [b0|]; [|discriminate].
-  rewrite Hf. cbn [andb]. destruct (0 <? fst (key_of imp b0)) eqn:E; [|discriminate].
-  intros H; inversion H; subst b0. apply Nat.ltb_lt in E. cbn [key_of fst] in E. unfold prefix_max in E.
-  apply prefix_max_pos in E. destruct E as [E|[o [Ho Hp]]]; [lia|].
-  destruct (is_future_full _ Hf) as [x Hx]. rewrite Hx in Hp.
-  exists o. destruct (i_full o) as [|y r] eqn:Eo; [cbn in Hp; lia|].
-  cbn [common_prefix_len] in Hp. destruct (str_eqb s_future y) eqn:Ey; [|lia].
-  apply str_eqb_eq in Ey. subst y. eauto.
+  rewrite Hf. cbn [andb]. destruct (f46 c).
+  - destruct (existsb is_future (ib_imps b0)) eqn:E; [|discriminate].
+    intros H; inversion H; subst b0. apply existsb_exists in E. destruct E as [o [Ho Hfo]].
+    destruct (is_future_full _ Hfo) as [x Hx]. exists o, [x]. split; assumption.
+  - destruct (0 <? fst (key_of imp b0)) eqn:E; [|discriminate].
+    intros H; inversion H; subst b0. apply Nat.ltb_lt in E. cbn [key_of fst] in E. unfold prefix_max in E.
+    apply prefix_max_pos in E. destruct E as [E|[o [Ho Hp]]]; [lia|].
+    destruct (is_future_full _ Hf) as [x Hx]. rewrite Hx in Hp.
+    exists o. destruct (i_full o) as [|y r] eqn:Eo; [cbn in Hp; lia|].
+    cbn [common_prefix_len] in Hp. destruct (str_eqb s_future y) eqn:Ey; [|lia].
+    apply str_eqb_eq in Ey. subst y. eauto.
+Qed.
+
+(* F46: with the repair the block a from-__future__ import joins holds a from-__future__ import (a compiler
+   directive), not merely an import whose first component is __future__ *)
+Theorem future_joins_from_future_block c bs imp L b :
+  f46 c = true -> is_future imp = true -> select_block c bs imp L = Ok (Some b) ->
+  exists o, In o (ib_imps b) /\ is_future o = true.
+Proof.
+  intros H46 Hf. unfold select_block.
+  destruct (negb (f35 c) && has_tie imp (filter (cand_ok c L) (iblocks bs))); [discriminate|].
+  destruct (best_of imp (filter (cand_ok c L) (iblocks bs)) None) as [b0|]; [|discriminate].
+  rewrite Hf, H46. cbn [andb]. destruct (existsb is_future (ib_imps b0)) eqn:E; [|discriminate].
+  intros H; inversion H; subst b0. apply existsb_exists in E. exact E.
 Qed.
 
 (* the statements in front of a new import block *)
